@@ -50,7 +50,7 @@ impl Fl for f64 {
 
 // ------------------------------------------------------------------------------------------ colour types
 
-trait Col<F: Fl>: Sized + Clone + Premultiply<Scalar = F> {
+trait Col<F: Fl>: Sized + Clone + Premultiply<Scalar = F> + From<PreAlpha<Self>> {
     const NAME: &'static str;
     const N: usize;
     fn mk(c: &[F]) -> Self;
@@ -325,6 +325,8 @@ fn do_unpremul<F: Fl, C: Col<F>>(o: &mut Out, via: &str, p: &[F], a: F) {
         match via {
             "trait" => { let (b, ba) = C::unpremultiply(pre); with_alpha(b.comps(), ba) }
             "method" => { let b = pre.unpremultiply(); with_alpha(b.color.comps(), b.alpha) }
+            // the bare colour out of a premultiplied one (From<PreAlpha<C>> for C); it has no alpha of its own
+            "bare" => { let b: C = pre.into(); with_alpha(b.comps(), a) }
             _ => { let b: Alpha<C, F> = pre.into(); with_alpha(b.color.comps(), b.alpha) }
         }
     });
@@ -474,9 +476,9 @@ where
             // a premultiplied colour that is not the product of grid values: c/g' <= a
             if ia > 0 {
                 let pcol: Vec<F> = cases.iter().map(|x| F::of((x.0 % (ia + 1)) as f64 / g as f64)).collect();
-                do_unpremul::<F, C>(o, ["trait", "method", "into"][k % 3], &pcol, v(ia));
+                do_unpremul::<F, C>(o, ["trait", "method", "into", "bare"][k % 4], &pcol, v(ia));
             } else {
-                do_unpremul::<F, C>(o, ["trait", "method", "into"][k % 3], &vec![F::f0(); C::N], F::f0());
+                do_unpremul::<F, C>(o, ["trait", "method", "into", "bare"][k % 4], &vec![F::f0(); C::N], F::f0());
             }
             k += 1;
         }
@@ -489,7 +491,7 @@ where
         let a = r(&mut rng);
         do_premul::<F, C>(o, PREMUL_VIAS[i % 4], &c, a);
         let pc: Vec<F> = c.iter().map(|x| x.mul(a)).collect();
-        do_unpremul::<F, C>(o, ["trait", "method", "into"][i % 3], &pc, a);
+        do_unpremul::<F, C>(o, ["trait", "method", "into", "bare"][i % 4], &pc, a);
     }
     if let Some((idx, of)) = share {
         let mut k = 0usize;
